@@ -1677,3 +1677,27 @@ Proof.
   cbn [loader_calls]. cbv zeta. change (fst (loader_call V F q)) with F.
   cbn [fst snd map]. rewrite IH1, IH2. split; reflexivity.
 Qed.
+
+(* ------------------------------------------------------------------ *)
+(* extract_wfs_array on a whole array                                  *)
+(* ------------------------------------------------------------------ *)
+Lemma extract_array_window V (src : Z -> Z -> V) P ns rows : rows <> [] -> 0 <= c_to P <= c_L P ->
+  (forall r, In r rows -> c_to P <= r_sample r /\ r_sample r + (c_L P - c_to P) <= ns /\
+                          0 <= r_chan r < zlen (c_geom P)) ->
+  r_sample (last rows drow) + (c_L P - c_to P) < ns ->
+  extract_array V src P (cidx P) ns rows = Some (map (fun r => window V src P (r_sample r) (r_chan r)) rows).
+Proof.
+  intros Hne Hto Hr Hl. unfold extract_array. destruct rows as [|r0 rt]; [congruence|].
+  apply Z.ltb_lt in Hl. rewrite Hl. apply sequence_map_some. intros r Hin.
+  destruct (Hr r Hin) as (H1 & H2 & H3).
+  unfold chunk_wf, chan_row, chunk_offset. cbn [Z.eqb].
+  assert (Hz : zlen (cidx P) = zlen (c_geom P)).
+  { unfold cidx, channel_index, chans, zlen. cbv zeta. now rewrite map_length, zrange_length. }
+  rewrite Hz. unfold wrap_index at 1.
+  assert (E : (0 <=? r_chan r) && (r_chan r <? zlen (c_geom P)) = true) by lia. rewrite E.
+  rewrite (sequence_map_some _ (fun t => r_sample r - c_to P + t)); [reflexivity|].
+  intros t Ht. apply in_zrange in Ht. rewrite Z2Nat.id in Ht by lia. unfold wrap_index.
+  assert (E2 : (0 <=? r_sample r + 0 - 0 * c_size P + t - c_to P) &&
+               (r_sample r + 0 - 0 * c_size P + t - c_to P <? ns) = true) by lia.
+  rewrite E2. cbn. f_equal. lia.
+Qed.
